@@ -66,18 +66,25 @@ Proof. reflexivity. Qed.
 Lemma zlen_cons : forall A (x : A) l, zlen (x :: l) = zlen l + 1.
 Proof. intros; unfold zlen; cbn [length]; lia. Qed.
 
-Lemma pop_wf : forall fr v fr', stack_wf fr -> pop fr = Some (v, fr') -> stack_wf fr' /\ fr_top fr' = fr_top fr - 1.
+Lemma pop_wf : forall fr v fr', stack_wf fr -> pop fr = (v, fr') -> stack_wf fr'.
 Proof.
-  unfold pop, stack_wf; intros fr v fr' H. destruct (fr_live fr) eqn:E; [discriminate|].
-  intros [= <- <-]; cbn. rewrite zlen_cons in H. split; lia.
+  unfold pop, stack_wf; intros fr v fr' H. destruct (fr_live fr) eqn:E.
+  - intros [= <- <-]. unfold fr_set_stack, err_invalid, fr_set_err; destruct (fr_err fr); cbn [fr_top fr_live]; exact H.
+  - intros [= <- <-]. unfold fr_set_stack; cbn [fr_top fr_live]. rewrite zlen_cons in H. lia.
 Qed.
 
-(* stackPop panics exactly on the empty stack *)
-Lemma pop_none_iff : forall fr, stack_wf fr -> (pop fr = None <-> fr_top fr = 0).
+(* a pop from a non-empty stack takes the top slot and records nothing *)
+Lemma pop_nonempty : forall fr v l, fr_live fr = v :: l ->
+  fst (pop fr) = v /\ fr_top (snd (pop fr)) = fr_top fr - 1 /\ fr_err (snd (pop fr)) = fr_err fr.
+Proof. unfold pop; intros fr v l ->. cbn. auto. Qed.
+
+(* stackPop on the empty stack: no panic; null, and an error is recorded (E3 unless one was there) *)
+Lemma pop_empty : forall fr, fr_live fr = [] ->
+  fst (pop fr) = VNull /\ fr_err (snd (pop fr)) <> None /\ fr_top (snd (pop fr)) = fr_top fr.
 Proof.
-  unfold pop, stack_wf; intros fr H. destruct (fr_live fr) eqn:E.
-  - split; [intros _; exact H | reflexivity].
-  - split; [discriminate|]. rewrite zlen_cons in H. unfold zlen in H; lia.
+  unfold pop, err_invalid; intros fr ->. cbn [fst snd]. split; [reflexivity|]. split.
+  - destruct (fr_err fr) eqn:E; unfold fr_set_stack, fr_set_err; cbn [fr_err]; [rewrite E|]; discriminate.
+  - destruct (fr_err fr); reflexivity.
 Qed.
 
 Lemma push_wf : forall v fr fr', stack_wf fr -> push v fr = Some fr' -> stack_wf fr' /\ fr_top fr' = fr_top fr + 1.
@@ -93,20 +100,18 @@ Proof.
   eexists; reflexivity.
 Qed.
 
-Lemma pop_n_aux_wf : forall n fr acc l fr',
-  stack_wf fr -> pop_n_aux n fr acc = Some (l, fr') -> stack_wf fr' /\ fr_top fr' = fr_top fr - Z.of_nat n.
+Lemma pop_n_aux_wf : forall n fr acc l fr', stack_wf fr -> pop_n_aux n fr acc = (l, fr') -> stack_wf fr'.
 Proof.
   induction n; intros fr acc l fr' H; cbn [pop_n_aux].
-  - intros [= <- <-]; split; [assumption | lia].
-  - destruct (pop fr) as [[v fr1]|] eqn:E; [|discriminate].
-    destruct (pop_wf _ _ _ H E) as [H1 H2]. intros H3. destruct (IHn _ _ _ _ H1 H3) as [H4 H5]. split; [assumption | lia].
+  - intros [= <- <-]; assumption.
+  - destruct (pop fr) as [v fr1] eqn:E. intros H3. eapply IHn; [|exact H3]. eapply pop_wf; eauto.
 Qed.
 
-Lemma pop_n_wf : forall n fr l fr', stack_wf fr -> pop_n n fr = Some (l, fr') -> stack_wf fr'.
+Lemma pop_n_wf : forall n fr l fr', stack_wf fr -> pop_n n fr = (l, fr') -> stack_wf fr'.
 Proof.
   unfold pop_n; intros n fr l fr' H. destruct (n <=? 0); [intros [= <- <-]; assumption|].
-  destruct (pop_n_aux (Z.to_nat n) fr []) as [[l1 fr1]|] eqn:E; [|discriminate].
-  destruct (pop_n_aux_wf _ _ _ _ _ H E) as [H1 _]. intros [= <- <-]. exact H1.
+  destruct (pop_n_aux (Z.to_nat n) fr []) as [l1 fr1] eqn:E.
+  pose proof (pop_n_aux_wf _ _ _ _ _ H E) as H1. intros [= <- <-]. exact H1.
 Qed.
 
 (* ---- NumOpCount: the saturating add never decreases a non-negative counter and never wraps *)
@@ -147,9 +152,16 @@ Example run_example :
                   (init_vmstate {| hi := 1; lo := 2 |}) = Val (VInt 42) st' /\ vs_ops st' = 4.
 Proof. eexists; split; vm_compute; reflexivity. Qed.
 
-(* and the empty-stack pop is a Panic, not an error *)
+(* the empty-stack pop is an error (E3), counted once more at the next loop head *)
+Example run_underflow_example :
+  exists st', run 100 {| e_ftab := []; e_cfg := {| cfg_ignore_div0 := false; cfg_min_mode := false; cfg_max_mode := false;
+                                       cfg_op_limit := 0; cfg_def_expr_empty := true; cfg_st_callback := false |} |}
+      [I OpPop ONil; I OpHalt ONil] "" (init_vmstate {| hi := 1; lo := 2 |}) = Err EOther st' /\ vs_ops st' = 2.
+Proof. eexists; split; vm_compute; reflexivity. Qed.
+
+(* a Go panic that is still there: a jump before the start of the code *)
 Example run_panic_example :
   run 100 {| e_ftab := []; e_cfg := {| cfg_ignore_div0 := false; cfg_min_mode := false; cfg_max_mode := false;
                                        cfg_op_limit := 0; cfg_def_expr_empty := true; cfg_st_callback := false |} |}
-      [I OpPop ONil; I OpHalt ONil] "" (init_vmstate {| hi := 1; lo := 2 |}) = OPanic "stack index -1".
+      [I OpJmp (OInt (-5)); I OpHalt ONil] "" (init_vmstate {| hi := 1; lo := 2 |}) = OPanic "code index negative".
 Proof. vm_compute; reflexivity. Qed.
